@@ -159,7 +159,15 @@ def rnd_history(rnd, nops, zst, xen=False):
         k = rnd.random()
         ri = rnd.randint(1, len(lay))
         rn = lay[ri - 1][1]
-        if k < 0.08:
+        if k < 0.04 and TA_CB:
+            # the public try_access with a client callback answering from a script (it may claim more than it was offered)
+            op = "try_access_cb"
+            sc = []
+            for _ in range(rnd.choice([0, 0, 1, 1, 2, 3])):
+                b = rnd.choice(["full", "full", "n", "n", "n", "zero", "err"])
+                sc.append({"b": "n", "k": rnd.choice([1, 1, 2, 3, 4, 7, 9, 40])} if b == "n" else {"b": b})
+            a = {"addr": addr(), "count": max(cnt(), 0) % 200, "script": sc}
+        elif k < 0.08:
             # transfers against a stream that delivers short counts / interruptions / errors (same actions as C14)
             if rnd.random() < 0.6:
                 op = rnd.choice(["s_read_from", "s_read_exact_from", "s_write_to", "s_write_all_to"])
@@ -250,7 +258,12 @@ def adjust_shrunk(events):
     return events
 
 
+TA_CB = False
+
+
 def traces(ctx, zst=None, release=False):
+    global TA_CB
+    TA_CB = ctx.pid in ("C03", "C07")
     if zst is None:
         zst = ctx.pid in ("C18", "C07")
     nhist, nops = (250, 50) if ctx.tier == "quick" else (4000, 70)
